@@ -134,7 +134,8 @@ class Variable(Program):
     def __init__(self, variable: int, type: Type = UnknownType()):
         super().__init__(type)
         self.variable: int = variable
-        self.hash = hash((self.variable, self.type))
+        # equality only looks at the variable index, so must the hash
+        self.hash = hash(("var", self.variable))
 
     def is_invariant(self, constant_types: Set[PrimitiveType]) -> bool:
         return False
